@@ -395,6 +395,8 @@ func verifH_C04_pace() {
 				verifAssertSeqEqual(e.EcadIC, chip.ecad, "evidence: encrypted chip authentication data")
 				verifAssertSeqEqual(e.TermMapPub, ec.x962(chip.termMapPub), "evidence: terminal mapping public key")
 				verifAssertSeqEqual(e.TermKaPub, ec.x962(chip.termKaPub), "evidence: terminal agreement public key")
+				r2, e2 := VerifyEvidence(doc, e)
+				verifAssert(e2 == nil && r2 != nil && r2.Success, "the evidence captured from a genuine session verifies offline")
 			}
 		} else {
 			verifAssert(camRes == nil, "no chip-authentication-mapping result for generic mapping")
